@@ -4,6 +4,7 @@ import (
 	"context"
 	"errors"
 	"fmt"
+	"io"
 	"reflect"
 	"runtime"
 	"sort"
@@ -13,6 +14,7 @@ import (
 
 	apifu "github.com/ccbrown/api-fu"
 	"github.com/ccbrown/api-fu/graphql"
+	"github.com/sirupsen/logrus"
 )
 
 type ctxKey int
@@ -49,6 +51,7 @@ type task struct {
 	deliveredRound int  // idle round at whose end the result was found in the promise's buffer (-1: never)
 	doneRound      int  // first idle round at whose end the body had returned (-1: not by the last round)
 	res            mres
+	exec           int // index of the execution (request / subscription event) that started it
 }
 
 // reg is one invocation of a Batch resolver.
@@ -60,7 +63,8 @@ type reg struct {
 	result  graphql.ResolveResult
 	res     mres
 	chained bool
-	flushed int // round in which a batch function received it (0: never)
+	exec    int // index of the execution that registered it
+	flushed int // round in which a batch function received it (0: pending, -1: its execution returned first)
 	seen    int // number of times a batch function received it
 }
 
@@ -120,6 +124,7 @@ type world struct {
 	pumpStop     chan struct{}
 	pumpDone     chan struct{}
 	pumped       int
+	execs        int
 }
 
 func worldOf(ctx context.Context) *world {
@@ -169,7 +174,11 @@ func (w *world) spec(key string) Spec {
 	} else if r < w.c.PErr+w.c.PNull {
 		s.Out = "null"
 	}
-	s.N = next(4)
+	maxN := w.c.MaxN
+	if maxN <= 0 {
+		maxN = 3
+	}
+	s.N = next(maxN + 1)
 	if next(100) < w.c.PGate {
 		if next(100) < w.c.PPre {
 			s.Gate = "pre"
@@ -248,7 +257,7 @@ func parentKey(obj interface{}) string {
 }
 
 func (w *world) newTask(key string, sp Spec, mr mres) *task {
-	t := &task{idx: len(w.tasks), key: key, pid: w.allocPid(), spec: sp, bodyDone: make(chan struct{}), deliveredRound: -1, doneRound: -1, res: mr}
+	t := &task{idx: len(w.tasks), key: key, pid: w.allocPid(), spec: sp, bodyDone: make(chan struct{}), deliveredRound: -1, doneRound: -1, res: mr, exec: w.execs}
 	if sp.Gate == "pre" || sp.Gate == "post" {
 		t.gate = make(chan struct{})
 	}
@@ -284,7 +293,7 @@ func (w *world) async(ctx graphql.FieldContext, key string, sp Spec, val interfa
 		t.ch = p
 		return p, t, nil, nil
 	case "batch":
-		r := &reg{id: len(w.regs), k: sp.Batch % nBatchers, key: key, pid: w.allocPid(), result: graphql.ResolveResult{Value: val, Error: err}, res: mr}
+		r := &reg{id: len(w.regs), k: sp.Batch % nBatchers, key: key, pid: w.allocPid(), result: graphql.ResolveResult{Value: val, Error: err}, res: mr, exec: w.execs}
 		w.regs = append(w.regs, r)
 		w.events = append(w.events, event{kind: "batch", pid: r.pid, k: r.k, item: r.id})
 		c2 := ctx
@@ -546,8 +555,8 @@ func (w *world) idleEnter() {
 		t := cands[i]
 		t.released = true
 		ro.released = append(ro.released, t.idx)
-		if !t.chained {
-			awaited = true
+		if !t.chained && t.exec == w.execs {
+			awaited = true // (a task left over from an earlier execution may leave through `done` without waking the handler)
 		}
 		if t.spec.Gate == "pre" {
 			close(t.gate)
@@ -639,6 +648,23 @@ func (w *world) idleExit() {
 	}
 }
 
+// execReturned: one execution (HTTP request, WS operation or subscription event) has returned.
+func (w *world) execReturned() {
+	w.closeOpen()
+	w.execs++
+	for _, r := range w.regs {
+		if r.flushed == 0 {
+			r.flushed = -1 // not pending any more: the execution that registered it is over
+		}
+	}
+}
+
+func quietLogger() *logrus.Logger {
+	l := logrus.New()
+	l.SetOutput(io.Discard)
+	return l
+}
+
 // releaseAll opens every remaining gate (after the request returned) and waits for all bodies.
 func (w *world) releaseAll() error {
 	var cands []*task
@@ -717,6 +743,28 @@ func buildAPI() *apifu.API {
 	for _, name := range []string{"i", "n", "o", "l", "c"} {
 		cfg.AddMutation(name, fields[name])
 	}
+	// subscription s(id): the source stream carries Events nodes; each event is executed as a request
+	cfg.AddSubscription("s", &graphql.FieldDefinition{Type: obj, Arguments: idArg(), Resolve: func(ctx graphql.FieldContext) (interface{}, error) {
+		w := worldOf(ctx.Context)
+		id, _ := ctx.Arguments["id"].(int)
+		if ctx.IsSubscribe {
+			n := w.c.Events
+			if n < 1 {
+				n = 1
+			}
+			ch := make(chan *node, n)
+			for e := 0; e < n; e++ {
+				ch <- &node{key: "/s" + strconv.Itoa(id) + "@" + strconv.Itoa(e)}
+			}
+			close(ch)
+			return &apifu.SubscriptionSourceStream{EventChannel: ch, Stop: func() {}}, nil
+		}
+		if nd, ok := ctx.Object.(*node); ok {
+			w.execEvent()
+			return nd, nil
+		}
+		return nil, errors.New("subscriptions are not supported using this protocol")
+	}})
 	cfg.Execute = func(r *graphql.Request, info *apifu.RequestInfo) *graphql.Response {
 		if w := worldOf(r.Context); w != nil && r.IdleHandler != nil {
 			orig := r.IdleHandler
@@ -726,8 +774,13 @@ func buildAPI() *apifu.API {
 				w.idleExit()
 			}
 		}
-		return graphql.Execute(r)
+		resp := graphql.Execute(r)
+		if w := worldOf(r.Context); w != nil {
+			w.execReturned()
+		}
+		return resp
 	}
+	cfg.Logger = quietLogger()
 	api, err := apifu.NewAPI(cfg)
 	if err != nil {
 		panic(err)
